@@ -49,6 +49,51 @@ def variant(scen: dict, k: int) -> dict:
     return v
 
 
+def c10_exhaustive(max_len: int) -> list[dict]:
+    """Small-scope exhaustive part of C10: every delivery stream of up to
+    max_len spans over the ids a <- b <- c (k-th occurrence of an id carries
+    a different payload, every second duplicate also a different parent),
+    every batch size 1..len+1, and for streams of <= 4 deliveries every cut
+    into two ingest processes over the same file."""
+    import itertools
+
+    base = {"a": None, "b": "a", "c": "b"}
+    units = []
+    for n in range(1, max_len + 1):
+        for word in itertools.product("abc", repeat=n):
+            occ: dict = {}
+            stream = []
+            for i, x in enumerate(word):
+                k = occ.get(x, 0)
+                occ[x] = k + 1
+                parent = base[x]
+                if (x == "c" and k % 2 == 1) or (x == "b" and k
+                                                     and k % 2 == 0):
+                    parent = "a" if parent != "a" else "c"
+                stream.append({
+                    "id": x, "trace": "t", "type": f"{x}{k}",
+                    "parent": parent, "st": ws.T0 + 10 * i,
+                    "en": ws.T0 + 10 * i + 5, "name": "W", "app": "app",
+                    **({"dup": True} if k else {})})
+            cuts = [None] + (list(range(1, n)) if n <= 4 else [])
+            for bs in range(1, n + 2):
+                for cut in cuts:
+                    procs = ([{"deliver": stream}] if cut is None else
+                             [{"deliver": stream[:cut]},
+                              {"deliver": stream[cut:]}])
+                    scen = {"id": f"C10:exh:{''.join(word)}:{bs}:{cut}",
+                            "focus": "C10", "batch_size": bs,
+                            "time_buffer": 0, "mode": "exhaustive",
+                            "processes": procs, "kinds": ["ok", "exh"],
+                            "pipeline": False, "stream_filter": {},
+                            "filter_names": []}
+                    units.append({"kind": "store", "prop": "C10",
+                                  "idx": -1, "scenario": scen,
+                                  "hash_class": len(units) % 16,
+                                  "exhaustive": True})
+    return units
+
+
 def build_units(prop, tier, seed, scale, findings):
     n = scaled(SIZES[tier], scale)
     if prop == "C09":
@@ -60,6 +105,8 @@ def build_units(prop, tier, seed, scale, findings):
                 "pin"):
             idxs.insert(0, f["pin"]["idx"])
     units = []
+    if prop == "C10":
+        units += c10_exhaustive(4 if tier == "quick" else 6)
     for i in dict.fromkeys(idxs):
         u = {"kind": "store", "prop": prop, "idx": i,
              "hash_class": hash_class_of(i),
@@ -262,6 +309,8 @@ def main(prop, argv=None):
         "probes": probes,
         "batch_sizes": batch_sizes,
         "distinct_store_states": len(states),
+        "exhaustive_small_scope_units": sum(
+            1 for u in units if u.get("exhaustive")),
         "simulated_processes": sum(r.get("n_processes", 0) for r in results),
         "simulated_time_ns": ws.HORIZON * len(units),
         "seeds": {"VERIF_SEED": run.seed, "scenario_salt": ws.SCEN_SALT},
